@@ -187,47 +187,47 @@ theorem keyLt_total : ∀ (a b : Key), a.length = b.length → keyLt a b = false
         have := keyLt_total xs ys (by simpa using hl) h1 h2
         rw [this]
 
-theorem find?_isSome_iff (h : Hist) (k : Key) : (h.find? k).isSome = true ↔ k ∈ h.keys := by
+theorem findKey?_isSome_iff (h : Hist) (k : Key) : (h.findKey? k).isSome = true ↔ k ∈ h.keys := by
   induction h with
-  | nil => simp [Hist.find?, Hist.keys]
+  | nil => simp [Hist.findKey?, Hist.keys]
   | cons kv rest ih =>
     obtain ⟨k', c⟩ := kv
-    simp only [Hist.find?, Hist.keys, List.map_cons, List.mem_cons]
+    simp only [Hist.findKey?, Hist.keys, List.map_cons, List.mem_cons]
     by_cases e : k' = k
     · simp [e]
     · have e' : ¬ k = k' := fun h => e h.symm
       simp only [e, if_false, e', false_or]
       simpa [Hist.keys] using ih
 
-theorem find?_eq_some_get (h : Hist) (k : Key) (c : Nat) (hf : h.find? k = some c) : h.get k = c := by
+theorem findKey?_eq_some_get (h : Hist) (k : Key) (c : Nat) (hf : h.findKey? k = some c) : h.get k = c := by
   induction h with
-  | nil => simp [Hist.find?] at hf
+  | nil => simp [Hist.findKey?] at hf
   | cons kv rest ih =>
     obtain ⟨k', c'⟩ := kv
-    simp only [Hist.find?, Hist.get] at hf ⊢
+    simp only [Hist.findKey?, Hist.get] at hf ⊢
     by_cases e : k' = k
     · simp [e] at hf ⊢; exact hf
     · simp only [e, if_false] at hf ⊢; exact ih hf
 
 /-- the fold of `equals` is a conjunction -/
 theorem equals_foldl (h o : Hist) (l : List (Key × Nat)) (d : Bool) :
-    l.foldl (equalsStep h o) d = (d && l.all fun v => h.find? v.1 == some (o.get v.1)) := by
+    l.foldl (equalsStep h o) d = (d && l.all fun v => h.findKey? v.1 == some (o.get v.1)) := by
   induction l generalizing d with
   | nil => simp
   | cons v rest ih =>
     simp only [List.foldl_cons, List.all_cons]
     rw [ih]
     unfold equalsStep
-    cases hf : h.find? v.1 with
+    cases hf : h.findKey? v.1 with
     | none => simp
     | some c => simp [Bool.and_assoc]
 
-theorem find?_of_mem (h : Hist) (k : Key) (hk : k ∈ h.keys) : h.find? k = some (h.get k) := by
+theorem findKey?_of_mem (h : Hist) (k : Key) (hk : k ∈ h.keys) : h.findKey? k = some (h.get k) := by
   induction h with
   | nil => simp [Hist.keys] at hk
   | cons kv rest ih =>
     obtain ⟨k', c⟩ := kv
-    simp only [Hist.find?, Hist.get]
+    simp only [Hist.findKey?, Hist.get]
     by_cases e : k' = k
     · simp [e]
     · simp only [e, if_false]
@@ -263,7 +263,7 @@ theorem foldl_least_inv (lt : Key → Key → Bool) (irr : ∀ a, lt a a = false
         · subst hk; simpa using hv)
     intro k hk
     apply key
-    simp only [List.mem_append, List.mem_singleton, List.not_mem_nil, or_false] at hk ⊢
+    simp only [List.mem_append, List.mem_cons, List.not_mem_nil, or_false] at hk ⊢
     rcases hk with h | h | h
     · exact Or.inl (Or.inl h)
     · exact Or.inl (Or.inr h)
